@@ -43,8 +43,10 @@ def jobs(tier):
             for f in (5, 9):
                 J.append(job(3, s, o, f, tiers=("quick", "thorough") if o == "lB"[(s + f) % 2] else ("thorough",)))
     # ---- far headers: field positions anywhere up to the message size limit survive the field-position cache (seed C02-2: position narrowed to 16 bits)
-    for s_, o in ((0, "l"), (5, "B"), (3, "l"), (2, "B")):
-        J.append(job(4, s_, o))
+    FARQ = ((0, "l"), (5, "B"), (3, "l"), (2, "B"))
+    for s_ in SHAPES:
+        for o in "lB":
+            J.append(job(4, s_, o, tiers=("quick", "thorough") if (s_, o) in FARQ else ("thorough",)))
     # ---- the same kinds of edit from a state in which a getter has filled the field-position cache (stale cache entries must not survive an edit)
     for s_, o, op, f, nl in ((0, "l", 2, 1, 0), (0, "B", 2, 3, 0), (1, "l", 2, 6, 0), (5, "B", 2, 3, 0), (5, "l", 2, 10, 0), (3, "B", 2, 5, 0), (0, "l", 1, 1, 8), (1, "B", 1, 6, 1), (5, "l", 1, 3, 8), (2, "B", 0, 0, 0), (1, "l", 0, 0, 0), (3, "l", 3, 5, 0)):
         J.append(job(op, s_, o, f, nl, prefill=1))
